@@ -92,6 +92,27 @@ def make_tamper(alter, plan, state: dict):
         return rpce.build_response(rpce.ndr64_getkey_response(env, hr), ctx_id=0, call_id=pdu["call_id"] if pdu else 1)
 
     def tamper(conn, idx, data):
+        if kind == "ack-level":
+            # on-path adversary: the (unauthenticated) auth_level octet of the security trailers in the server's bind_ack /
+            # alter_context_resp is rewritten; later it answers the sealed request itself with a cleartext Response
+            if conn.port == 135 or len(data) < 16:
+                return None
+            if data[2] in (rpce.BIND_ACK, rpce.ALTER_CONTEXT_RESP):
+                p = rpce.parse_pdu(data)
+                if p["auth"] is None:
+                    return None
+                b = bytearray(data)
+                b[p["auth"]["offset"] + 1] = alter[2]
+                state["applied"] = True
+                return bytes(b)
+            if state.get("applied") and data[2] in (rpce.RESPONSE, rpce.FAULT):
+                try:
+                    p = rpce.parse_pdu(data)
+                except Exception:  # noqa: BLE001
+                    p = None
+                state["answered_request"] = True
+                return adv_response(conn, p)
+            return None
         if kind == "ntlm-flags":
             # on-path adversary in the (unauthenticated) handshake: bits of NegotiateFlags in the NTLM CHALLENGE carried by the
             # bind_ack are cleared (SEAL, SIGN, KEY_EXCH ...); from then on the adversary answers in the server's place:
@@ -691,7 +712,7 @@ def run(case) -> dict:
     adv_rk = adv_root_key(plan["root_keys"][0])
 
     def V(cond, detail):
-        what = alter[0] + ("-" + str(alter[1]) if alter[0] in ("strip", "lenfix", "mitm-handshake", "fragment", "connect-flap", "epm-port-135", "busy-fault", "no-credential", "ntlm-flags") else "")
+        what = alter[0] + ("-" + str(alter[1]) if alter[0] in ("strip", "lenfix", "mitm-handshake", "fragment", "connect-flap", "epm-port-135", "busy-fault", "no-credential", "ntlm-flags", "ack-level") else "")
         return common.violation("C16", what, fl, cond, opname, "",
                                 f"{detail}; alteration={alter} ctx={ctxname} op={opname} outcome={out.brief()} {out.exc!r}")
 
@@ -705,10 +726,13 @@ def run(case) -> dict:
         signed_region = byte < 24 or tro <= byte < tro + 8
     if out.kind == "raise":
         probes["rejected"] = 1
-    elif out.kind == "blocks":
+    elif out.kind == "blocks" and ((alter[0] == "flip" and alter[1] // 8 in (8, 9)) or (alter[0] == "lenfix" and alter[1] == "frag_len") or alter[0] in ("connect-flap", "no-credential")):
         # the adversary enlarged frag_len: the client waits for bytes that never come on an open connection. No result is
         # produced, nothing is accepted; a real peer would time the connection out. Not a violation (cf. C14 'stall').
         probes["blocked_waiting_for_more_bytes"] = 1
+    elif out.kind == "blocks":
+        # the complete (altered) reply was delivered, its framing untouched: "rejected with an error" means the call ends
+        viol = V("altered-reply-neither-rejected-nor-returned", "the altered reply arrived completely, yet the call keeps waiting on the open connection instead of raising")
     elif out.kind != "ok":
         viol = V(out.kind, "call neither returned nor raised")
     elif signed_region:
@@ -749,7 +773,7 @@ class C16(common.Check):
             "pad_length / alloc_hint / auth level / auth type rewritten to {0,1,true+-1,true+-16,0xFFFF}; sealed stub substituted; sealed reply "
             "of an earlier connection replayed; handshake man-in-the-middle (security trailers removed from bind_ack / alter_context_resp, every "
             "later server PDU replaced by the adversary's cleartext Response); PFC_LAST_FRAG cleared on the sealed reply and a cleartext "
-            "continuation fragment appended; NegotiateFlags bits (SEAL, SIGN, KEY_EXCH, 128/56-bit, extended session security) cleared in the NTLM CHALLENGE of the bind_ack, the adversary then "
+            "continuation fragment appended; the auth_level octet of the server's handshake trailers rewritten to 0 / 1 / 2 / 5 before a cleartext forgery; NegotiateFlags bits (SEAL, SIGN, KEY_EXCH, 128/56-bit, extended session security) cleared in the NTLM CHALLENGE of the bind_ack, the adversary then "
             "answering the alter_context and the request in the server's place; fault: the credential for the requested provider cannot be acquired (context creation raises: stub, real NTLM with an unknown user, "
             "Kerberos without the gssapi extras) while whoever answers an unauthenticated request on the key service port is the adversary; two requests on one connection through the raw client (first reply bit-flipped, second replaced by "
             "a cleartext forgery; a call with an empty stub whose reply is replaced; a 'server too busy' fault injected before a cleartext Response; an adversary mapper that announces port 135 itself as the key endpoint and serves GetKey there without any security context; first reply untouched, second replaced by the first one again); 2..3 async protects in flight at once on one event loop (PRNG latencies interleave one call's unauthenticated EPM exchange with another call's pending sealed reply) while every sealed reply is replaced by a cleartext forgery; two or three caller threads protecting at the "
@@ -760,7 +784,7 @@ class C16(common.Check):
                   "transport / entropy / clock": "simulated"}
     assumptions = ["outcome-based: a correct client may reject earlier or later or tolerate a change in an unprotected field, as long as the result equals the authentic one",
                    "pyspnego NTLM signs data_readonly buffers too, so 'header signing off' is only observable with StubCtx"]
-    required_fired = ("alter_strip", "alter_flip", "alter_lenfix", "alter_subst", "alter_replay", "alter_mitm-handshake", "alter_connect-flap", "alter_epm-port-135", "alter_busy-fault", "alter_no-credential", "alter_ntlm-flags", "alter_async_concurrent", "empty_stub_request", "alter_fragment", "alter_tworeq", "alter_tworeq_replay", "alter_threads", "thread_overlap", "epm_reply_replaced", "raw_request_level", "rejected")
+    required_fired = ("alter_strip", "alter_flip", "alter_lenfix", "alter_subst", "alter_replay", "alter_mitm-handshake", "alter_connect-flap", "alter_epm-port-135", "alter_busy-fault", "alter_no-credential", "alter_ntlm-flags", "alter_ack-level", "alter_async_concurrent", "empty_stub_request", "alter_fragment", "alter_tworeq", "alter_tworeq_replay", "alter_threads", "thread_overlap", "epm_reply_replaced", "raw_request_level", "rejected")
 
     def exhaustive(self, tier):
         return tier == "thorough"
@@ -791,6 +815,8 @@ class C16(common.Check):
                         if ctxname in ("stub-hs", "ntlm"):
                             for variant in (("stub-raise",) if ctxname == "stub-hs" else ("ntlm-unknown-user", "kerberos-not-installed")):
                                 out.append([ctxname, "p256", opname, fl, ["no-credential", kind, variant]])
+                        for lvl in (0, 1, 2, 5):
+                            out.append([ctxname, "p256", opname, fl, ["ack-level", kind, lvl]])
                         if ctxname == "ntlm":
                             for mask in (0x20, 0x10, 0x30, 0x40000000, 0x40000030, 0x20000000 | 0x80000000 | 0x20, 0x00080000 | 0x20):
                                 out.append([ctxname, "p256", opname, fl, ["ntlm-flags", kind, mask]])
